@@ -20,6 +20,7 @@ func init() {
 			"contextFormatf to the id-object formatter is the caller's context parameter itself (not the result of a failed type assertion), and AliasContext stores under the id key " +
 			"exactly the value it read from the source under the same key; C18.oneline - every path through doPrintln/doPrintf makes exactly one call into the standard logger " +
 			"(one Write under its own mutex), and every level function reaches it exactly once; C18.prefix - the process id precedes the connection id in every prefix. " +
+			"Also: the lock that serialises the lines is released on every path of the function that took it (also when the underlying writer refuses a line). " +
 			"Not decided: uniqueness/wholeness by enumerating interleavings; Switch/Close racing with logging (outside the property's quantifier).",
 		Assume: []string{"log.Logger serialises one Output call into one Write under its mutex", "sync/atomic operations are atomic"},
 		Run:    runC18,
@@ -35,6 +36,18 @@ func runC18(c *Ctx) {
 	fns := P.ModuleFuncs("logger")
 	for _, f := range fns {
 		R.Funcs[core.QualName(f)] = true
+	}
+	// the lock that serialises the lines is released on every path of the function that took it - also when the
+	// underlying writer refuses the line (the standard logger swallows that error; a lock kept on that exit silences
+	// every later line for good)
+	{
+		var all []*ssa.Function
+		for _, fn := range fns {
+			if fn.Parent() == nil {
+				all = append(all, core.WithClosures(fn)...)
+			}
+		}
+		checkLockReleasedRule(c, "C18.oneline", "every later logging call that needs it blocks for good and emits nothing", all)
 	}
 
 	// ---- C18.counter
